@@ -59,6 +59,20 @@ def stepCount (v : Commodity) (days : List Day) (a : Account) (F D : Int) (c : C
 def stepBound (v : Commodity) (days : List Day) (a : Account) (F D : Int) : Nat :=
   ((commoditiesOf days a).map (stepCount v days a F D)).sum
 
+/-- the value `Valuate` gives a booking on its own day `d`: the quantity itself in the valuation commodity, else
+`Truncate₈(quantity × normalised price of the declarations dated ≤ d)`; `none` if there is no such price -/
+def bookingValue (v : Commodity) (days : List Day) (d : Int) (p : Posting) : Option Rat :=
+  if p.quantity = 0 then some 0
+  else if p.commodity = v then some p.quantity
+  else match pricesAt v days d with
+    | none => none
+    | some np => (Prices.find p.commodity np).map (fun pr => Prices.multiply p.quantity pr)
+
+/-- the bookings on account `b` dated in `(F, D]`, each valued at the price of its own day, summed -/
+def flowAt (v : Commodity) (days : List Day) (b : Account) (F D : Int) : Option Rat :=
+  (((userPostings days).filter (fun (x : Int × Posting) => decide (F < x.1) && decide (x.1 ≤ D) && decide (x.2.account = b))).mapM
+    (fun x => bookingValue v days x.1 x.2)).map List.sum
+
 def alAccounts (days : List Day) : List Account :=
   (((userPostings days).map (fun x => x.2.account)).filter (·.isAL)).eraseDups
 
